@@ -172,49 +172,42 @@ theorem failed_startup_clean (sc : Scenario) (race : Bool)
   rw [hc] at h5
   simp only [Bool.false_eq_true, if_false, failedStartOk, Bool.and_eq_true] at h5
   obtain ⟨h6, h7⟩ := h5
-  have clean : ∀ {r : Res}, (o.res == r && !o.finApp && telemetryClean sc o) = true →
-      o.res = r ∧ o.finApp = false ∧ (o.finMet = false ∧ o.finHeld = false) ∧
+  have clean : (isError o.res && !o.finApp && telemetryClean sc o) = true →
+      o.res ≠ .ok ∧ o.finApp = false ∧ (o.finMet = false ∧ o.finHeld = false) ∧
         (sc.tracing = true → o.log.count .flush = 1 ∧ precedes isFlush isRet o.log = true) := by
-    intro r h
+    intro h
     simp only [Bool.and_eq_true, beq_iff_eq, Bool.not_eq_true', telemetryClean, Bool.or_eq_true] at h
     obtain ⟨⟨h1, h2⟩, h3, h4⟩ := h
-    refine ⟨h1, h2, h3, ?_⟩
-    intro ht
-    rcases h4 with h4 | h4
-    · rw [ht] at h4; cases h4
-    · exact h4
+    refine ⟨?_, h2, h3, ?_⟩
+    · intro hok; rw [hok] at h1; cases h1
+    · intro ht
+      rcases h4 with h4 | h4
+      · rw [ht] at h4; cases h4
+      · exact h4
+  -- either the panic of an OnStart hook left Start, or the error path ran
+  have alt : o.res = .panic ∨ (isError o.res && !o.finApp && telemetryClean sc o) = true := by
+    cases hfd : sc.starts.find? startFails with
+    | none => rw [hfd] at h7; right; exact h7
+    | some bb =>
+      rw [hfd] at h7
+      cases bb with
+      | panic =>
+        simp only [Bool.or_eq_true, beq_iff_eq] at h7
+        rcases h7 with h7 | h7
+        · left; exact h7
+        · right; exact h7
+      | ok => right; exact h7
+      | err => right; exact h7
+      | block => right; exact h7
+      | cancelOk => right; exact h7
   refine ⟨by simpa using h6, ?_, ?_⟩
-  · intro hok
-    cases hfd : sc.starts.find? startFails with
-    | none =>
-      rw [hfd] at h7; have := (clean h7).1; rw [hok] at this; cases this
-    | some bb =>
-      rw [hfd] at h7
-      cases bb with
-      | panic =>
-        simp only [Bool.or_eq_true, beq_iff_eq] at h7
-        rcases h7 with h7 | h7
-        · rw [hok] at h7; cases h7
-        · have := (clean h7).1; rw [hok] at this; cases this
-      | ok => have := (clean h7).1; rw [hok] at this; cases this
-      | err => have := (clean h7).1; rw [hok] at this; cases this
-      | block => have := (clean h7).1; rw [hok] at this; cases this
-      | cancelOk => have := (clean h7).1; rw [hok] at this; cases this
+  · rcases alt with h | h
+    · intro hok; rw [hok] at h; cases h
+    · exact (clean h).1
   · intro hnp
-    cases hfd : sc.starts.find? startFails with
-    | none => rw [hfd] at h7; exact (clean h7).2
-    | some bb =>
-      rw [hfd] at h7
-      cases bb with
-      | panic =>
-        simp only [Bool.or_eq_true, beq_iff_eq] at h7
-        rcases h7 with h7 | h7
-        · exact absurd h7 hnp
-        · exact (clean h7).2
-      | ok => exact (clean h7).2
-      | err => exact (clean h7).2
-      | block => exact (clean h7).2
-      | cancelOk => exact (clean h7).2
+    rcases alt with h | h
+    · exact absurd h hnp
+    · exact (clean h).2
 
 /-- **OnReady runs only once the server accepts connections**: every OnReady event was logged by a
     registered hook that found the application serving; no hook runs twice. -/
